@@ -7,14 +7,16 @@ Import ListNotations.
 (* one VM case: the raw control program is converted by the MODEL's
    convert_program, then run by the VM model; observed: the VM observables of
    vm.Verify on the node's own context, and the node's converted program *)
-Definition c02_obs := (vmobs * item)%type.
+Definition c02_obs := (vmobs * list item)%type.
 Definition c02_obs_eqb (a b : c02_obs) : bool :=
-  vmobs_eqb (fst a) (fst b) && bytes_eqb (snd a) (snd b).
+  vmobs_eqb (fst a) (fst b) && list_eqb bytes_eqb (snd a) (snd b).
+Definition no_obs : vmobs := {| o_gas := 0; o_err := None; o_stack := None; o_trace := []; o_steps := 0%N |}.
+Definition c02_items (l : list item) : c02_obs := (no_obs, l).
 
 Definition c02_case (raw : item) (cr : crypto) (mkcx : item -> context) (vmversion : N)
   (statedata args : list item) (gas : Z) : c02_obs :=
   let code := convert_program (fun p => p) raw in
-  (vm_case cr (mkcx code) vmversion statedata args gas, code).
+  (vm_case cr (mkcx code) vmversion statedata args gas, [code]).
 
 (* builders / sighash / witness layout cases: everything is a list of byte strings *)
 Definition c02_build (kind : N) (h : item) (pks : list item) (m : N) : list item :=
@@ -31,4 +33,3 @@ Definition c02_witness (quorum : nat) (slots : list item) (last : item) : list i
 Definition c02_sigwitness (args : list item) (quorum : nat) (slots : list item) (sigprog : item) : list item :=
   sigwitness_materialize args quorum slots sigprog.
 
-Definition items_eqb : list item -> list item -> bool := list_eqb bytes_eqb.
